@@ -32,6 +32,8 @@ def main():
     skip_base = "--skip-baseline" in sys.argv
     meta = json.load(open(os.path.join(d, "meta.json")))
     pid = meta["property"]
+    if "--as" in sys.argv:         # run ANOTHER property's check against this change (cross-property catches)
+        pid = sys.argv[sys.argv.index("--as") + 1]
     wt = tempfile.mkdtemp(prefix="seed-%s-" % pid, dir="/var/tmp")
     os.rmdir(wt)
     out = {"property": pid, "dir": d}
